@@ -135,7 +135,13 @@ func (k *Kernel) procMain(p *Proc) {
 		}()
 
 		if !k.sc.Knobs.RelRepo {
-			_ = tx.SetFlag(option.RepositoryFlag, k.Dir)
+			// like the command line: a repository that does not exist (removed before
+			// the process started) is an incorrect command usage, not "use the
+			// working directory" (which all simulated runs of a worker share)
+			if e := tx.SetFlag(option.RepositoryFlag, k.Dir); e != nil {
+				runErr = query.NewIncorrectCommandUsageError(e.Error())
+				return
+			}
 		}
 		wt := spec.WaitTimeoutS
 		if wt <= 0 {
